@@ -70,7 +70,13 @@ V_HARNESS {
     vf_fail_open = IN.failopen[k] & 1; vf_fail_close = IN.failclose[k] & 1;
     int o0 = vf_opens, c0 = vf_closes;
     expect_throw = NULL;
-    switch (IN.op[k] % 8) {
+#ifdef OPSEQ
+    static const unsigned char seq_[] = { OPSEQ };    /* the operation sequence is fixed per obligation; failures, data and offsets stay symbolic */
+    unsigned char op_k = seq_[k];
+#else
+    unsigned char op_k = IN.op[k] % 8;
+#endif
+    switch (op_k) {
       case 0: /* sopen: closes a previously open stream first; fopen failure -> IOError */
         if (vf_fail_open || (is_open && vf_fail_close)) expect_throw = IOError;
         sopen(f, $S("data.bin"), $S("w+b"));
@@ -92,9 +98,9 @@ V_HARNESS {
       case 6: if (!is_open) expect_throw = IOError; sseek(f, 0, SEEK_SET); sflush(f); break;
       case 7: if (!is_open) expect_throw = IOError; (void)seof(f); break;
     }
-    V_ASSERT(expect_throw == NULL || (IN.op[k] % 8 <= 2 && is_open && !vf_fail_open), "an operation on a File that is not open must raise IOError");
+    V_ASSERT(expect_throw == NULL || (op_k <= 2 && is_open && !vf_fail_open), "an operation on a File that is not open must raise IOError");
   }
-  V_WITNESS("lifecycle sequence done");
+  V_WITNESS_OPT("lifecycle sequence done");
   vf_fail_close = 0;
   int c0 = vf_closes; _Bool was_open = f->file != NULL;
   del_raw(f);
